@@ -1,8 +1,10 @@
 /-
 C01 - the "counted from the end" arithmetic after the repair of C01-ub-index-signed-overflow.
 
-`size - i` in push_indexed_lvalue / f_range / f_extract_range is now computed in uint64_t and converted back
-(LPC_INT_SUB).  The expressions are REGENERATED from the clang AST (`NV.Gen.C01.rev_*`, with the C type of the
+`size - i` in push_indexed_lvalue is computed in uint64_t and converted back (LPC_INT_SUB); f_range / f_extract_range
+call the helper `range_from_end (len, i)` (C03's repair: SATURATES at INT64_MAX instead of wrapping, so `x[<i..]` with i
+near INT64_MIN is empty), whose body is regenerated as `rangeFromEnd` together with the unwrapped values of its signed
+operations (`range_from_end_no_overflow`).  The expressions are REGENERATED from the clang AST (`NV.Gen.C01.rev_*`, with the C type of the
 subtraction recorded in `revSitesUnsigned`).  Proved here, for every size a C container can have and every int64
 operand:
   * the C subtraction is unsigned at all 14 sites (so it cannot be undefined behaviour) - `rev_sites_unsigned`;
@@ -17,7 +19,37 @@ import NV.C01.PropsRange
 namespace NV.C01
 open NV.Gen.C01
 
-/-- every regenerated "counted from the end" subtraction is done in an unsigned C type -/
+/-- the helper range_from_end, for every container length and every int64 operand: the difference when it fits,
+    INT64_MAX (saturation: "before the first element") when it does not -/
+theorem rangeFromEnd_spec (len i : Int) (h0 : 0 ≤ len) (h1 : len ≤ 9223372036854775807) (hi : InI64 i) :
+    InI64 (rangeFromEnd len i) ∧ (len - i ≤ 9223372036854775807 → rangeFromEnd len i = len - i) ∧
+    (9223372036854775807 < len - i → rangeFromEnd len i = 9223372036854775807) := by
+  unfold InI64 at *
+  unfold rangeFromEnd rangeFromEndCond trunc64
+  split <;> simp only [decide_eq_true_eq] at * <;> omega
+
+/-- `range_from_end_no_overflow`: no SIGNED C operation of the helper leaves the range of int64_t - the ones in the
+    condition always, the ones of each return only on the path that evaluates them.  (The unwrapped values of the signed
+    arithmetic nodes are regenerated from the clang AST: `rangeFromEndNodes*`.) -/
+theorem range_from_end_no_overflow (len i : Int) (h0 : 0 ≤ len) (h1 : len ≤ 9223372036854775807) (hi : InI64 i) :
+    (∀ x ∈ rangeFromEndNodesCond len i, InI64 x) ∧
+    (rangeFromEndCond len i = true → ∀ x ∈ rangeFromEndNodesThen len i, InI64 x) ∧
+    (rangeFromEndCond len i = false → ∀ x ∈ rangeFromEndNodesElse len i, InI64 x) := by
+  unfold InI64 at *
+  unfold rangeFromEndNodesCond rangeFromEndNodesThen rangeFromEndNodesElse rangeFromEndCond trunc64
+  refine ⟨?_, ?_, ?_⟩ <;> intros <;> simp_all <;> omega
+
+/-- the translator found the signed operations of the helper (a helper without any would make the theorem vacuous) -/
+theorem range_from_end_nodes_found : (rangeFromEndNodesCond 5 1).length + (rangeFromEndNodesThen 5 1).length +
+    (rangeFromEndNodesElse 5 1).length ≥ 2 := by decide
+
+theorem trunc64_trunc64 (x : Int) : trunc64 (trunc64 x) = trunc64 x := by
+  unfold trunc64; omega
+
+/-- the nine f_range / f_extract_range sites go through the helper -/
+theorem rev_sites_helper : revSitesHelper.length = 9 := by decide
+
+/-- every regenerated "counted from the end" computation is an unsigned C subtraction or the proved helper -/
 theorem rev_sites_unsigned : ∀ p ∈ revSitesUnsigned, p.2 = true := by decide
 
 /-- the translator found all 14 sites -/
@@ -44,40 +76,76 @@ theorem rev_sindex_arr_exact (size n : Int) (h0 : 0 ≤ size) (h1 : size ≤ 429
   unfold InI64 at *; unfold rev_sindex_arr trunc64 truncU64; omega
 
 theorem rev_range_str_to_exact (size n : Int) (h0 : 0 ≤ size) (h1 : size ≤ 4294967295) (hn : InI64 n) :
-    InI64 (rev_range_str_to size n) ∧ (0 ≤ rev_range_str_to size n → rev_range_str_to size n = size - n) ∧ (size - n ≤ 9223372036854775807 → rev_range_str_to size n = size - n) := by
-  unfold InI64 at *; unfold rev_range_str_to trunc64 truncU64; omega
+    InI64 (rev_range_str_to size n) ∧ (size - n ≤ 9223372036854775807 → rev_range_str_to size n = size - n) ∧
+    (9223372036854775807 < size - n → rev_range_str_to size n = 9223372036854775807) := by
+  unfold rev_range_str_to
+  have e : trunc64 size = size := trunc64_id _ (by omega) (by omega)
+  simp only [trunc64_trunc64, e]
+  exact rangeFromEnd_spec size n h0 (by omega) hn
 
 theorem rev_range_buf_to_exact (size n : Int) (h0 : 0 ≤ size) (h1 : size ≤ 4294967295) (hn : InI64 n) :
-    InI64 (rev_range_buf_to size n) ∧ (0 ≤ rev_range_buf_to size n → rev_range_buf_to size n = size - n) ∧ (size - n ≤ 9223372036854775807 → rev_range_buf_to size n = size - n) := by
-  unfold InI64 at *; unfold rev_range_buf_to trunc64 truncU64; omega
+    InI64 (rev_range_buf_to size n) ∧ (size - n ≤ 9223372036854775807 → rev_range_buf_to size n = size - n) ∧
+    (9223372036854775807 < size - n → rev_range_buf_to size n = 9223372036854775807) := by
+  unfold rev_range_buf_to
+  have e : trunc64 size = size := trunc64_id _ (by omega) (by omega)
+  simp only [trunc64_trunc64, e]
+  exact rangeFromEnd_spec size n h0 (by omega) hn
 
 theorem rev_range_arr_to_exact (size n : Int) (h0 : 0 ≤ size) (h1 : size ≤ 4294967295) (hn : InI64 n) :
-    InI64 (rev_range_arr_to size n) ∧ (0 ≤ rev_range_arr_to size n → rev_range_arr_to size n = size - n) ∧ (size - n ≤ 9223372036854775807 → rev_range_arr_to size n = size - n) := by
-  unfold InI64 at *; unfold rev_range_arr_to trunc64 truncU64; omega
+    InI64 (rev_range_arr_to size n) ∧ (size - n ≤ 9223372036854775807 → rev_range_arr_to size n = size - n) ∧
+    (9223372036854775807 < size - n → rev_range_arr_to size n = 9223372036854775807) := by
+  unfold rev_range_arr_to
+  have e : trunc64 size = size := trunc64_id _ (by omega) (by omega)
+  simp only [trunc64_trunc64, e]
+  exact rangeFromEnd_spec size n h0 (by omega) hn
 
 theorem rev_range_str_from_exact (size n : Int) (h0 : 0 ≤ size) (h1 : size ≤ 4294967295) (hn : InI64 n) :
-    InI64 (rev_range_str_from size n) ∧ (0 ≤ rev_range_str_from size n → rev_range_str_from size n = size - n) ∧ (size - n ≤ 9223372036854775807 → rev_range_str_from size n = size - n) := by
-  unfold InI64 at *; unfold rev_range_str_from trunc64 truncU64; omega
+    InI64 (rev_range_str_from size n) ∧ (size - n ≤ 9223372036854775807 → rev_range_str_from size n = size - n) ∧
+    (9223372036854775807 < size - n → rev_range_str_from size n = 9223372036854775807) := by
+  unfold rev_range_str_from
+  have e : trunc64 size = size := trunc64_id _ (by omega) (by omega)
+  simp only [trunc64_trunc64, e]
+  exact rangeFromEnd_spec size n h0 (by omega) hn
 
 theorem rev_range_buf_from_exact (size n : Int) (h0 : 0 ≤ size) (h1 : size ≤ 4294967295) (hn : InI64 n) :
-    InI64 (rev_range_buf_from size n) ∧ (0 ≤ rev_range_buf_from size n → rev_range_buf_from size n = size - n) ∧ (size - n ≤ 9223372036854775807 → rev_range_buf_from size n = size - n) := by
-  unfold InI64 at *; unfold rev_range_buf_from trunc64 truncU64; omega
+    InI64 (rev_range_buf_from size n) ∧ (size - n ≤ 9223372036854775807 → rev_range_buf_from size n = size - n) ∧
+    (9223372036854775807 < size - n → rev_range_buf_from size n = 9223372036854775807) := by
+  unfold rev_range_buf_from
+  have e : trunc64 size = size := trunc64_id _ (by omega) (by omega)
+  simp only [trunc64_trunc64, e]
+  exact rangeFromEnd_spec size n h0 (by omega) hn
 
 theorem rev_range_arr_from_exact (size n : Int) (h0 : 0 ≤ size) (h1 : size ≤ 4294967295) (hn : InI64 n) :
-    InI64 (rev_range_arr_from size n) ∧ (0 ≤ rev_range_arr_from size n → rev_range_arr_from size n = size - n) ∧ (size - n ≤ 9223372036854775807 → rev_range_arr_from size n = size - n) := by
-  unfold InI64 at *; unfold rev_range_arr_from trunc64 truncU64; omega
+    InI64 (rev_range_arr_from size n) ∧ (size - n ≤ 9223372036854775807 → rev_range_arr_from size n = size - n) ∧
+    (9223372036854775807 < size - n → rev_range_arr_from size n = 9223372036854775807) := by
+  unfold rev_range_arr_from
+  have e : trunc64 size = size := trunc64_id _ (by omega) (by omega)
+  simp only [trunc64_trunc64, e]
+  exact rangeFromEnd_spec size n h0 (by omega) hn
 
 theorem rev_erange_str_from_exact (size n : Int) (h0 : 0 ≤ size) (h1 : size ≤ 4294967295) (hn : InI64 n) :
-    InI64 (rev_erange_str_from size n) ∧ (0 ≤ rev_erange_str_from size n → rev_erange_str_from size n = size - n) ∧ (size - n ≤ 9223372036854775807 → rev_erange_str_from size n = size - n) := by
-  unfold InI64 at *; unfold rev_erange_str_from trunc64 truncU64; omega
+    InI64 (rev_erange_str_from size n) ∧ (size - n ≤ 9223372036854775807 → rev_erange_str_from size n = size - n) ∧
+    (9223372036854775807 < size - n → rev_erange_str_from size n = 9223372036854775807) := by
+  unfold rev_erange_str_from
+  have e : trunc64 size = size := trunc64_id _ (by omega) (by omega)
+  simp only [trunc64_trunc64, e]
+  exact rangeFromEnd_spec size n h0 (by omega) hn
 
 theorem rev_erange_buf_from_exact (size n : Int) (h0 : 0 ≤ size) (h1 : size ≤ 4294967295) (hn : InI64 n) :
-    InI64 (rev_erange_buf_from size n) ∧ (0 ≤ rev_erange_buf_from size n → rev_erange_buf_from size n = size - n) ∧ (size - n ≤ 9223372036854775807 → rev_erange_buf_from size n = size - n) := by
-  unfold InI64 at *; unfold rev_erange_buf_from trunc64 truncU64; omega
+    InI64 (rev_erange_buf_from size n) ∧ (size - n ≤ 9223372036854775807 → rev_erange_buf_from size n = size - n) ∧
+    (9223372036854775807 < size - n → rev_erange_buf_from size n = 9223372036854775807) := by
+  unfold rev_erange_buf_from
+  have e : trunc64 size = size := trunc64_id _ (by omega) (by omega)
+  simp only [trunc64_trunc64, e]
+  exact rangeFromEnd_spec size n h0 (by omega) hn
 
 theorem rev_erange_arr_from_exact (size n : Int) (h0 : 0 ≤ size) (h1 : size ≤ 4294967295) (hn : InI64 n) :
-    InI64 (rev_erange_arr_from size n) ∧ (0 ≤ rev_erange_arr_from size n → rev_erange_arr_from size n = size - n) ∧ (size - n ≤ 9223372036854775807 → rev_erange_arr_from size n = size - n) := by
-  unfold InI64 at *; unfold rev_erange_arr_from trunc64 truncU64; omega
+    InI64 (rev_erange_arr_from size n) ∧ (size - n ≤ 9223372036854775807 → rev_erange_arr_from size n = size - n) ∧
+    (9223372036854775807 < size - n → rev_erange_arr_from size n = 9223372036854775807) := by
+  unfold rev_erange_arr_from
+  have e : trunc64 size = size := trunc64_id _ (by omega) (by omega)
+  simp only [trunc64_trunc64, e]
+  exact rangeFromEnd_spec size n h0 (by omega) hn
 
 
 /-- push_indexed_lvalue + store: no undefined-behaviour outcome is left -/
